@@ -1,10 +1,11 @@
 #!/bin/bash
-# benignsweep.sh [slots] — runs every behaviour-preserving change of /verif/benign against the quick check of every
+# benignsweep.sh [slots] [regex on the change's name] — runs every behaviour-preserving change of /verif/benign against the quick check of every
 # property anchored in a file it touches (benigntest.sh), in parallel slots; prints one line per (change, check).
 # Any VIOLATION is a false alarm of the machinery.  Results also go to /tmp/bsweep/<slot>.txt.
 N=${1:-4}
+PAT=${2:-.}
 mkdir -p /tmp/bsweep; rm -f /tmp/bsweep/*.txt
-ls -d /verif/benign/*/ | sort > /tmp/bsweep/all.lst
+ls -d /verif/benign/*/ | sort | grep -E "$PAT" > /tmp/bsweep/all.lst
 for s in $(seq 1 $N); do
   ( i=0; while read d; do i=$((i+1)); [ $(( (i-1) % N + 1 )) -eq $s ] || continue
       id=$(basename $d); echo "--- $id"
